@@ -15,4 +15,4 @@ CONSTANTS
   OOB = FALSE
   REORIENT = FALSE
   BIGSET = TRUE
-  SAMPLE = 0
+  SAMPLE = 41
